@@ -48,14 +48,15 @@ type bitSummary struct {
 }
 
 type bitAn struct {
-	c     *Ctx
-	p     *Program
-	rows  []*reviewRow
-	db    *proverDB
-	sums  map[*ssa.Function]*bitSummary
-	busy  map[*ssa.Function]bool
-	nObl  int
-	nSite map[*ssa.Function]int
+	c        *Ctx
+	p        *Program
+	rows     []*reviewRow
+	db       *proverDB
+	sums     map[*ssa.Function]*bitSummary
+	busy     map[*ssa.Function]bool
+	nObl     int
+	nSite    map[*ssa.Function]int
+	liftBusy map[*ssa.Parameter]bool
 }
 
 func isReaderMethod(cal *ssa.Function, name string) bool {
@@ -143,6 +144,40 @@ func (b *bitAn) ubValue(fn *ssa.Function, at ssa.Instruction, v ssa.Value, siteK
 					n, _ := strconv.Atoi(r.class)
 					return n, "reviewed: " + key
 				}
+			}
+		}
+	}
+	// a parameter of a helper: the largest bound over all call sites (each bounded in its caller)
+	if prm, ok := v.(*ssa.Parameter); ok && !b.liftBusy[prm] {
+		idx := -1
+		for i, q := range fn.Params {
+			if q == prm {
+				idx = i
+			}
+		}
+		if n := b.p.CallGraph().Nodes[fn]; n != nil && len(n.In) > 0 && idx >= 0 {
+			if b.liftBusy == nil {
+				b.liftBusy = map[*ssa.Parameter]bool{}
+			}
+			b.liftBusy[prm] = true
+			best, okAll := -1, true
+			for _, e := range n.In {
+				if e.Site == nil || idx >= len(e.Site.Common().Args) {
+					okAll = false
+					break
+				}
+				u, _ := b.ub(e.Caller.Func, e.Site, e.Site.Common().Args[idx], siteKey)
+				if u < 0 {
+					okAll = false
+					break
+				}
+				if u > best {
+					best = u
+				}
+			}
+			delete(b.liftBusy, prm)
+			if okAll && best >= 0 {
+				return best, "bounded at every call site"
 			}
 		}
 	}
